@@ -16,7 +16,7 @@ DEFAULT_KNOBS = dict(
     listeners=(0, 2), multi_prov=0.2, sends=0.0, raises=0.0, guard_raise=0.0, ops=(1, 12),
     unknown_ev=0.1, p_activate=0.03, p_construct=0.03, p_write=0.03, rtc_false=0.15, allow=0.3,
     resume=0.1, start=0.1, send_budget=8, scripts=(0, 4), ret_none=0.3,
-    attr_guards=0.0, p_async=0.0, async_mode=None, yields=0.0, falsy_machine=0.06, share_groups=0.15, p_values=0.15, styles=("str", "str", "list", "obj", "assign"),
+    attr_guards=0.0, p_async=0.0, async_mode=None, yields=0.0, falsy_machine=0.06, share_groups=0.15, p_values=0.15, styles=("str", "str", "list", "obj", "assign", "mixed"), plain_senders=0.5,
 )
 SHARE = ["val", "before", "on", "after", "enter", "exit"]
 STATE_VALUES = [0, 1, 2, -1, {"s": 0}, {"s": 1}, {"t": [1]}, {"t": []}, 10, 11, 12]
@@ -266,6 +266,10 @@ def gen_scenario(rng, knobs=None):
                 t["ev"] = ev
         else:
             style = "str"
+    mixed = None
+    if style == "mixed":
+        # single-event transitions only may take their event from a class attribute
+        mixed = [1 if (len(t["ev"]) == 1 and rng.random() < 0.5) else 0 for t in trans]
     values = None
     if rng.random() < K["p_values"]:
         pool = list(STATE_VALUES)
@@ -290,7 +294,7 @@ def gen_scenario(rng, knobs=None):
         # a plain (non-coroutine) callback that sends from the async engine gets an un-awaited
         # coroutine back (D18): make every sender a coroutine
         have = {tuple(x) for x in acoro}
-        if acoro:
+        if acoro and rng.random() >= K["plain_senders"]:
             for p, kind, k, scripts, _d in tbl:
                 if any(a[0] == "send" for s_ in scripts for a in s_["a"]) and (p, kind, k) not in have:
                     acoro.append([p, kind, k])
@@ -305,6 +309,6 @@ def gen_scenario(rng, knobs=None):
                         if sc_ is dflt:
                             continue          # default scripts stay pure
                         acts.insert(pos, ["yield"])
-    return {"evstyle": style, "values": values, "async": acoro, "falsy_machine": rng.random() < K["falsy_machine"], "n": n, "initial": initial, "finals": finals, "ne": ne, "trans": trans, "states": states,
+    return {"evstyle": style, "mixed": mixed, "values": values, "async": acoro, "falsy_machine": rng.random() < K["falsy_machine"], "n": n, "initial": initial, "finals": finals, "ne": ne, "trans": trans, "states": states,
             "provs": provs, "start": start, "rtc": rtc, "allow": rng.random() < K["allow"],
             "field0": field0, "tbl": tbl, "ops": ops}
